@@ -561,6 +561,8 @@ class Engine(StmtMixin):
             for f, ov in fields.items():
                 if f.startswith("$") or (oid, f) in allowed:
                     continue
+                if oid == st.ghost and f == "suspensions":
+                    continue  # engine-maintained counter of suspension points (see suspend_point): every async function may change it
                 nv = st.heap[oid].get(f)
                 if nv is ov:
                     continue
